@@ -52,15 +52,21 @@ class Family:
 _FAMILY = None
 
 
+_HIST: list = []      # per worker process: the job numbers it has handled so far (a failure may depend on them)
+
+
 def _worker(args):
     fam, seed, k, tier, fixed = args
     try:
         if fixed is not None:
             spec, info = fixed["spec"], fixed["info"]
+            for h in fixed.get("history") or []:      # replay: what the same process encoded before this document
+                laygen.observe(h["spec"], h["info"])
         else:
             spec, info = fam.gen(sub_rng(seed, fam.tag, k), k, tier)
         ob = laygen.observe(spec, info)
-        out = dict(spec=spec, info=info, status=ob["status"])
+        out = dict(spec=spec, info=info, status=ob["status"], prev_k=list(_HIST[-3:]))
+        _HIST.append(k)
         if ob["status"] != "ok":
             out["error"] = {k2: v for k2, v in ob.items() if not k2.startswith("_")}
             out["fails"] = fam.on_error(spec, info, ob)
@@ -115,7 +121,19 @@ def run_family(fam: Family, res: common.Result, build, rule, trusted, assume, ex
                 res.known_hits[kid] = res.known_hits.get(kid, 0) + 1
                 known_lines.setdefault(kid, line)
         for f in fails[:1]:
-            if not res.failures:
+            if not res.failures and o.get("prev_k") and not case.get("history"):
+                # does the failure need what the same worker process encoded before?  (a fresh subprocess decides)
+                solo = common.pool_map(_worker, [(fam, 0, 0, "quick", dict(spec=case["spec"], info=case["info"]))] * 4)[0]
+                sf = list(solo.get("fails") or [])
+                if known_fn is not None and sf:
+                    sf, _ = known_fn(solo, sf)
+                if not sf:
+                    by_k = {j[2]: n for n, j in enumerate(jobs)}
+                    hist = [dict(spec=outs[by_k[pk]]["spec"], info=outs[by_k[pk]]["info"]) for pk in o["prev_k"] if pk in by_k]
+                    case = dict(case, history=hist)
+                    res.notes.append("the first failing document fails only after the documents the same process "
+                                     "encoded before it (kept as `history` in the replay)")
+            if not res.failures and not case.get("history"):
                 try:
                     small = shrink(fam, case, known_fn)
                     if small is not case:
@@ -235,10 +253,13 @@ def replay_family(fam: Family, payload) -> int:
         if "spec" not in case:
             print(f"VIOLATION property={fam.prop} replay=<given> no-failing-input-found")
             return 1
-    o = _worker((fam, 0, 0, "quick", dict(spec=case["spec"], info=case["info"])))
+    o = common.pool_map(_worker, [(fam, 0, 0, "quick", dict(spec=case["spec"], info=case["info"],
+                                                            history=case.get("history")))] * 4)[0]
     if "machinery" in o:
         print(o["machinery"])
         return 2
+    if case.get("history"):
+        print(f"(after {len(case['history'])} earlier document(s) encoded in the same process)")
     print("status:", o["status"])
     for i, p in enumerate(o.get("pages") or []):
         print(f" page {i + 1}: {json.dumps(p)[:400]}")
